@@ -160,6 +160,12 @@ func c01(r *Report) propMeta {
 	r.Rule("C01.R11", "E19 constructors of x/oracle/types store their inputs unchanged")
 	r.CtorFaithful("ctor", faithfulCtors["oracle"]...)
 
+	r.Rule("C01.lint", "E8 module lint: no nondeterminism / process-local state in x/oracle")
+	r.ModuleLint("module-lint", "oracle", 20)
+
+	r.Rule("C01.iter", "E14 store-iterator loops run to exhaustion")
+	r.IteratorLoopCensus("iter", []string{"x/oracle/"}, nil, 3)
+
 	return propMeta{
 		Decided: []string{
 			"R1 result/report/cursor/pending stores are written only by their single setter",
@@ -172,6 +178,8 @@ func c01(r *Report) propMeta {
 			"R9 ReportData / AddReport / CheckValidReport reject only for the frozen set of reasons (a new rejection, e.g. a height-based expiry test in the message path, is reported)", "R8 every NewResult argument is the like-named field of the stored request / the live report count / block time",
 			"R10 every KV-store Get/Has/Delete of x/oracle uses a key builder of x/oracle/types that some Set of the module also uses (a probe of an iteration prefix or of a sibling family is always-empty state)",
 			"R11 the literal constructors of x/oracle/types (frozen list) store each parameter or a constant unchanged in the record they build: what a handler validated is what is stored",
+			"lint: the determinism lint (incl. writes to memory held by long-lived objects) over everything reachable from the handlers and blockers of x/oracle",
+			"iter: every KV-store iterator loop of the module's keeper runs until the iterator is exhausted (header is the bare Valid() test, no other way out but panic / error return), except reviewed early stops",
 		},
 		Undecided: []string{"correctness of the owasm script output", "that the pending list never carries a stale id across blocks (history invariant; R7 is its structural half)", "interleavings beyond the per-path facts"},
 		Assume:    []string{"go/types + go/ssa + VTA call graph are sound for this reflection-free keeper code", "baseapp runTx executes a message atomically", "genesis import is trusted (InitGenesis may write the stores)"},
